@@ -721,10 +721,6 @@ func (ts *Service) handleCreateTask(w http.ResponseWriter, r *http.Request) {
 			task.Type = client.BatchTask
 		}
 		task.TICKscript = template.TICKscript
-		if err := ts.templates.AssociateTask(task.TemplateID, newTask.ID); err != nil {
-			httpd.HttpError(w, fmt.Sprintf("failed to associate task with template: %s", err), true, http.StatusBadRequest)
-			return
-		}
 	} else {
 		// Set task type
 		switch task.Type {
@@ -827,6 +823,14 @@ func (ts *Service) handleCreateTask(w http.ResponseWriter, r *http.Request) {
 		httpd.HttpError(w, err.Error(), true, http.StatusInternalServerError)
 		return
 	}
+	// Associate the task with its template only once the request is valid and the task exists,
+	// so that a rejected request leaves no association behind.
+	if newTask.TemplateID != "" {
+		if err := ts.templates.AssociateTask(newTask.TemplateID, newTask.ID); err != nil {
+			httpd.HttpError(w, fmt.Sprintf("failed to associate task with template: %s", err), true, http.StatusInternalServerError)
+			return
+		}
+	}
 
 	// Count new task
 	vars.NumTasksVar.Add(1)
@@ -887,18 +891,6 @@ func (ts *Service) handleUpdateTask(w http.ResponseWriter, r *http.Request) {
 		if err != nil {
 			httpd.HttpError(w, fmt.Sprintf("unknown template %s: err: %s", task.TemplateID, err), true, http.StatusBadRequest)
 			return
-		}
-		if original.ID != updated.ID || original.TemplateID != templateID {
-			if original.TemplateID != "" {
-				if err := ts.templates.DisassociateTask(original.TemplateID, original.ID); err != nil {
-					httpd.HttpError(w, fmt.Sprintf("failed to disassociate task with template: %s", err), true, http.StatusBadRequest)
-					return
-				}
-			}
-			if err := ts.templates.AssociateTask(templateID, updated.ID); err != nil {
-				httpd.HttpError(w, fmt.Sprintf("failed to associate task with template: %s", err), true, http.StatusBadRequest)
-				return
-			}
 		}
 		updated.Type = template.Type
 		updated.TICKscript = template.TICKscript
@@ -1021,17 +1013,33 @@ func (ts *Service) handleUpdateTask(w http.ResponseWriter, r *http.Request) {
 				keyvalue.KV("newID", updated.ID),
 			)
 		}
-		if original.Status == Enabled && updated.Status == Enabled {
-			// Stop task and start it under new name
-			ts.stopTask(original.ID)
-			if err := ts.startTask(updated); err != nil {
-				httpd.HttpError(w, err.Error(), true, http.StatusInternalServerError)
-				return
-			}
-		}
 	} else {
 		if err := ts.tasks.Replace(updated); err != nil {
 			httpd.HttpError(w, fmt.Sprintf("failed to replace task definition: %s", err.Error()), true, http.StatusInternalServerError)
+			return
+		}
+	}
+
+	// Move the template association only once the request is valid and the definition is stored,
+	// so that a rejected request leaves the associations as they were.
+	if updated.TemplateID != "" && (original.ID != updated.ID || original.TemplateID != updated.TemplateID) {
+		if original.TemplateID != "" {
+			if err := ts.templates.DisassociateTask(original.TemplateID, original.ID); err != nil {
+				httpd.HttpError(w, fmt.Sprintf("failed to disassociate task with template: %s", err), true, http.StatusInternalServerError)
+				return
+			}
+		}
+		if err := ts.templates.AssociateTask(updated.TemplateID, updated.ID); err != nil {
+			httpd.HttpError(w, fmt.Sprintf("failed to associate task with template: %s", err), true, http.StatusInternalServerError)
+			return
+		}
+	}
+
+	if original.ID != updated.ID && original.Status == Enabled && updated.Status == Enabled {
+		// Stop task and start it under new name
+		ts.stopTask(original.ID)
+		if err := ts.startTask(updated); err != nil {
+			httpd.HttpError(w, err.Error(), true, http.StatusInternalServerError)
 			return
 		}
 	}
